@@ -564,7 +564,7 @@ class TemporariesRawStackTransformation(Transformation):
         """
 
         #List instances of temp_array
-        temp_arrays = [v for v in FindVariables().visit(routine.body) if v.name == temp_array.name]
+        temp_arrays = [v for v in FindVariables().visit(routine.body) if v.name.lower() == temp_array.name.lower()]
 
         temp_map = {}
         stack_dimensions = [None, None]
